@@ -369,9 +369,9 @@ Proof.
   discriminate.
 Qed.
 
-Lemma graphql_mw_no_panic extra s : graphql_mw extra <> FPanic s.
+Lemma graphql_mw_no_panic rd extra s : graphql_mw rd extra <> FPanic s.
 Proof.
-  unfold graphql_mw. destruct (gql_options extra); [|discriminate].
+  unfold graphql_mw. destruct (gql_options rd extra); [|discriminate].
   unfold gql_new. apply all_f_no_panic. intros [k v] _ s'. simpl.
   destruct v; try discriminate. apply gql_var_no_panic.
 Qed.
@@ -395,7 +395,7 @@ Proof.
     exfalso. revert E. apply split_dot_nonempty.
 Qed.
 
-Lemma stack_new_no_panic b : b_host b <> [] -> forall s, stack_new b <> FPanic s.
+Lemma stack_new_no_panic rd b : b_host b <> [] -> forall s, stack_new rd b <> FPanic s.
 Proof.
   intros Hh. unfold stack_new. apply seq_f_no_panic; [|apply seq_f_no_panic].
   - intros s. destruct (str_eqb (b_enc b) noop); [discriminate|apply formatter_new_no_panic].
@@ -415,9 +415,9 @@ Proof.
     rewrite forallb_forall in Hp. specialize (Hp p Hin). destruct p; try discriminate.
 Qed.
 
-Lemma factory_new_no_panic e :
+Lemma factory_new_no_panic rd e :
   merge_section_typed (e_extra e) -> Forall (fun b => b_host b <> []) (e_backends e) ->
-  forall s, factory_new e <> FPanic s.
+  forall s, factory_new rd e <> FPanic s.
 Proof.
   intros Hm Hb s. unfold factory_new. destruct (e_backends e) as [|b [|b2 r]] eqn:E; [discriminate| |].
   - inversion Hb; subst. apply stack_new_no_panic. assumption.
@@ -466,10 +466,10 @@ Section Main.
   Lemma total : forall s, well_typed s ->
     (forall site, init ch tl s <> Panic site) /\
     (forall c, init ch tl s = Ok c ->
-       forall e, In e (s_endpoints c) -> forall site, factory_new e <> FPanic site).
+       forall rd e, In e (s_endpoints c) -> forall site, factory_new rd e <> FPanic site).
   Proof.
     intros s [_ Hwt]. split; [intros; apply init_no_panic|].
-    intros c Hc e' Hin site. apply init_ok in Hc. destruct Hc as [_ [hs [Hhs F]]].
+    intros c Hc rd e' Hin site. apply init_ok in Hc. destruct Hc as [_ [hs [Hhs F]]].
     destruct (Forall2_In_r _ _ _ _ F Hin) as [e [He Fe]].
     rewrite Forall_forall in Hwt. destruct (Hwt e He) as [Hm Hb].
     destruct Fe as [_ [_ [_ [_ [_ [_ [_ [Hx [_ Fb]]]]]]]]].
